@@ -8,6 +8,7 @@ table = spec['table_' + tier]; cfgs = [spec.get('baseline', 'default')] + spec['
 jobs = []
 for c in cfgs:
     for (src, parts, libs, flags) in table:
+        if c in spec.get('not_instantiable', {}).get(src, {}): continue
         for k in (parts if parts is not None else [None]):
             fl = tuple(flags) + ((f'-DGLMX_PART={k}',) if k is not None else ())
             tag = os.path.splitext(os.path.basename(src))[0] + (f'p{k}' if k is not None else '')
